@@ -35,7 +35,13 @@ func ParseCode(input string, opts ...parseCodeOpt) (tree parser.IExpressionConte
 	tree = p.Expression()
 	index := stream.Index()
 	last := stream.Get(index).GetTokenType()
-	if last != antlr.TokenEOF && last != parser.GoLexerEOS {
+	if last == parser.GoLexerEOS && stream.Get(index).GetText() != ";" {
+		// 表达式之后的换行或多行注释可以忽略 但其后不能再有任何内容
+		stream.Consume()
+		index = stream.Index()
+		last = stream.Get(index).GetTokenType()
+	}
+	if last != antlr.TokenEOF {
 		err = errors.Wrapf(ErrInputTooLong, "at index=%v token=%v", index, last)
 		errListener.errors = append(errListener.errors, err)
 	}
